@@ -45,7 +45,7 @@ def run_files(files, cfg, variant="asan", env=None, write=None, codes=False, pre
     if pre:
         lines += pre
     for d in (delays or []):
-        lines.append("delay %d %d %d %d" % tuple(d))
+        lines.append("delay " + " ".join(str(int(x)) for x in d))
     if hook:
         lines.append("hook %d %d %d" % tuple(hook))
     nread = len(files)
